@@ -85,7 +85,8 @@ def mc_cfg(c):
         "  Types = %s" % tla_set(c["Types"]), "  IntCls = %s" % tla_set(c["IntCls"]), "  BigCls = %s" % tla_set(c["BigCls"]),
         "  StrCls = %s" % tla_set(c["StrCls"]), "  WithNull = %s" % tla_bool(c["WithNull"]), "  WithWrong = %s" % tla_bool(c["WithWrong"]),
         "  MaxBad = %d" % c["MaxBad"], "  WithUpd = %s" % tla_bool(c["WithUpd"]), "  MaxMut = %d" % c["MaxMut"],
-        "  MaxLife = %d" % c["MaxLife"], "  EmitOn = TRUE",
+        "  MaxLife = %d" % c["MaxLife"], "  LifeFrom = %d" % c.get("LifeFrom", 0), '  EmitSel = "%s"' % c.get("EmitSel", "all"),
+        "  MixedUpd = %s" % tla_bool(c.get("MixedUpd", False)), "  EmitOn = %s" % tla_bool(c.get("EmitOn", True)),
         "INIT MCInit", "NEXT MCNext", "VIEW View", "ACTION_CONSTRAINT Emit",
         "INVARIANTS GetReturnsAbs OnlyAcceptedStored MechanismOK",
         "PROPERTIES RefusedChangesNothing LifecycleChangesNothing", "CHECK_DEADLOCK FALSE", ""])
@@ -231,16 +232,15 @@ class Stats:
                             self.sizes[path].add(c["cls"])
 
 
-def run(ctx):
-    binary = vlib.build_harness(ctx, "valstore")
-    cov = dict(evaluations=0, distinct_nontrivial=0, samples=[], states=0, transitions=0, configs=[],
-               rule="one evaluation = one TLC-generated scenario (action path ending in a Get) executed on the real engine on one input "
-                    "path (direct statement values or SQL text); distinct_nontrivial = distinct (schema, value class per column) "
-                    "INSERT rows executed, accepted and refused ones counted separately and added "
-                    "(distinct SET lists of UPDATE are reported as distinct_updates)",
-               scenarios=0, text_skipped={}, executed={})
-    st = Stats()
-    pool = vlib.WorkerPool(ctx, binary, n=min(12, vlib.NCPU))
+def default_fid(scn, path, viol):
+    return "c08-%s-%s" % (path, viol[0][0])
+
+
+def run_configs(ctx, pool, configs, cov, st, fid_of=default_fid):
+    """The scenario runner: for every ValueStoreMC configuration in `configs`, TLC -> scenarios -> harness valstore
+    (direct and SQL-text path) -> judge.  Adds counts to `cov` (evaluations, samples, states, transitions, scenarios,
+    configs) and classes / outcomes to `st`; returns {finding id: [(scenario, path)]} of the scenarios that failed
+    (to be confirmed and reported with confirm_failing).  Used by C08 and, with mixed-outcome configurations, by C14."""
     mach_errors = []
     failing = {}   # finding id -> [(scn, path)]
     lock = threading.Lock()
@@ -254,7 +254,7 @@ def run(ctx):
                 mach_errors.extend(mach)
                 return
             if viol:
-                fid = "c08-%s-%s" % (path, viol[0][0])
+                fid = fid_of(scn, path, viol)
                 failing.setdefault(fid, [])
                 if len(failing[fid]) < 3:
                     failing[fid].append((scn, path))
@@ -265,96 +265,121 @@ def run(ctx):
                 cov["samples"].append(dict(config=cfgname, path=path, schema=scn["schema"], steps=scn["steps"],
                                            observed=[{k: v for k, v in x.items() if k in ("err", "sql", "rows", "supplied")} for x in r["steps"]]))
 
+    for idx, c in enumerate(configs):
+        q = queue.Queue(maxsize=4000)
+        count = [0]
+        therr = []
+
+        def gen():
+            while True:
+                o = q.get()
+                if o is None:
+                    return
+                yield dict(path="both", schema=o["schema"], steps=o["steps"])
+
+        def on_result(req, r):
+            scn = req
+            d, t = r.get("direct"), r.get("text")
+            if d is None:
+                with lock:
+                    mach_errors.append("harness: %s" % r.get("err"))
+                return
+            handle(scn, "direct", d, c["name"])
+            if t is not None and t.get("skip"):
+                with lock:
+                    st.skips[t["skip"]] = st.skips.get(t["skip"], 0) + 1
+            elif t is not None:
+                handle(scn, "text", t, c["name"])
+
+        def feeder():
+            try:
+                pool.run_all(gen(), on_result, chunk=16)
+            except Exception as e:  # noqa
+                therr.append(e)
+
+        th = threading.Thread(target=feeder, daemon=True)
+        th.start()
+
+        def on_scn(kind, o):
+            count[0] += 1
+            while True:
+                try:
+                    q.put(o, timeout=1)
+                    return
+                except queue.Full:
+                    if not th.is_alive():
+                        return
+        res = vlib.run_tlc(ctx, "ValueStoreMC", "ValueStoreMC_gen.cfg", cfg_text=mc_cfg(c), tag=c["name"], timeout=1800,
+                           on_scn=on_scn, heap="6g")
+        while th.is_alive():
+            try:
+                q.put(None, timeout=1)
+                break
+            except queue.Full:
+                continue
+        th.join(timeout=3600)
+        if therr:
+            raise therr[0] if isinstance(therr[0], vlib.Undecided) else vlib.Undecided("harness failure: %r\n%s" % (therr[0], pool.stderr_tail()))
+        vlib.tlc_must_ok(ctx, res, "ValueStoreMC %s" % c["name"])
+        if not count[0]:
+            raise vlib.Undecided("ValueStoreMC %s emitted no scenarios" % c["name"])
+        if mach_errors:
+            raise vlib.Undecided("harness / expectation problem: %s" % mach_errors[0])
+        cov["states"] += res.distinct
+        cov["transitions"] += res.generated
+        cov["scenarios"] += count[0]
+        cov["configs"].append(dict(name=c["name"], distinct=res.distinct, generated=res.generated, scenarios=count[0],
+                                   tlc_wall=round(res.wall, 1), bounds={k: v for k, v in c.items() if k != "name"}))
+    return failing
+
+
+def confirm_failing(ctx, pool, failing):
+    """Confirm failing scenarios once from scratch (full values), then report them under ctx.prop."""
+    for fid, lst in sorted(failing.items()):
+        for scn, path in lst[:2]:
+            got = []
+            pool.run_all([dict(path=path, schema=scn["schema"], steps=scn["steps"], full=True)], lambda qq, r: got.append(r), chunk=1)
+            viol, mach = judge(scn, got[0], path)
+            if mach or not viol:
+                raise vlib.Undecided("a failing scenario did not fail again when repeated: %s" % json.dumps(scn)[:600])
+            vlib.report_violation(ctx, dict(kind="valstore-replay", path=path, scenario=scn, detail=[v[1] for v in viol],
+                                            observed=got[0], finding_ids=[fid]), signature=fid, finding_ids=[fid])
+
+
+def replay_one(ctx, pool, payload):
+    """./check Cxx --replay <file> for a recorded value-store scenario."""
+    scn, path = payload["scenario"], payload["path"]
+    got = []
+    pool.run_all([dict(path=path, schema=scn["schema"], steps=scn["steps"], full=True)], lambda q, r: got.append(r), chunk=1)
+    viol, mach = judge(scn, got[0], path)
+    if mach:
+        raise vlib.Undecided("; ".join(mach))
+    print(json.dumps(dict(violations=[v[1] for v in viol], observed=got[0]), indent=1)[:8000])
+    if viol:
+        vlib.report_violation(ctx, dict(kind="valstore-replay", path=path, scenario=scn, detail=[v[1] for v in viol], observed=got[0],
+                                        finding_ids=payload.get("finding_ids")), signature="replay", finding_ids=payload.get("finding_ids"))
+
+
+def new_cov():
+    return dict(evaluations=0, distinct_nontrivial=0, samples=[], states=0, transitions=0, configs=[],
+                rule="one evaluation = one TLC-generated scenario (action path ending in a Get) executed on the real engine on one input "
+                     "path (direct statement values or SQL text); distinct_nontrivial = distinct (schema, value class per column) "
+                     "INSERT rows executed, accepted and refused ones counted separately and added "
+                     "(distinct SET lists of UPDATE are reported as distinct_updates)",
+                scenarios=0, text_skipped={}, executed={})
+
+
+def run(ctx):
+    binary = vlib.build_harness(ctx, "valstore")
+    cov = new_cov()
+    st = Stats()
+    pool = vlib.WorkerPool(ctx, binary, n=min(12, vlib.NCPU))
     try:
         if getattr(ctx, "replay", None):
-            payload = json.load(open(ctx.replay))
-            scn, path = payload["scenario"], payload["path"]
-            got = []
-            pool.run_all([dict(path=path, schema=scn["schema"], steps=scn["steps"], full=True)], lambda q, r: got.append(r), chunk=1)
-            viol, mach = judge(scn, got[0], path)
-            if mach:
-                raise vlib.Undecided("; ".join(mach))
-            print(json.dumps(dict(violations=[v[1] for v in viol], observed=got[0]), indent=1)[:8000])
-            if viol:
-                vlib.report_violation(ctx, dict(kind="valstore-replay", path=path, scenario=scn, detail=[v[1] for v in viol], observed=got[0],
-                                                finding_ids=payload.get("finding_ids")), signature="replay", finding_ids=payload.get("finding_ids"))
+            replay_one(ctx, pool, json.load(open(ctx.replay)))
             return
-        for idx, c in enumerate(MC[ctx.tier]):
-            q = queue.Queue(maxsize=4000)
-            count = [0]
-            therr = []
-
-            def gen():
-                while True:
-                    o = q.get()
-                    if o is None:
-                        return
-                    yield dict(path="both", schema=o["schema"], steps=o["steps"])
-
-            def on_result(req, r):
-                scn = req
-                d, t = r.get("direct"), r.get("text")
-                if d is None:
-                    with lock:
-                        mach_errors.append("harness: %s" % r.get("err"))
-                    return
-                handle(scn, "direct", d, c["name"])
-                if t is not None and t.get("skip"):
-                    with lock:
-                        st.skips[t["skip"]] = st.skips.get(t["skip"], 0) + 1
-                elif t is not None:
-                    handle(scn, "text", t, c["name"])
-
-            def feeder():
-                try:
-                    pool.run_all(gen(), on_result, chunk=16)
-                except Exception as e:  # noqa
-                    therr.append(e)
-
-            th = threading.Thread(target=feeder, daemon=True)
-            th.start()
-
-            def on_scn(kind, o):
-                count[0] += 1
-                while True:
-                    try:
-                        q.put(o, timeout=1)
-                        return
-                    except queue.Full:
-                        if not th.is_alive():
-                            return
-            res = vlib.run_tlc(ctx, "ValueStoreMC", "ValueStoreMC_gen.cfg", cfg_text=mc_cfg(c), tag=c["name"], timeout=1800,
-                               on_scn=on_scn, heap="6g")
-            while th.is_alive():
-                try:
-                    q.put(None, timeout=1)
-                    break
-                except queue.Full:
-                    continue
-            th.join(timeout=3600)
-            if therr:
-                raise therr[0] if isinstance(therr[0], vlib.Undecided) else vlib.Undecided("harness failure: %r\n%s" % (therr[0], pool.stderr_tail()))
-            vlib.tlc_must_ok(ctx, res, "ValueStoreMC %s" % c["name"])
-            if not count[0]:
-                raise vlib.Undecided("ValueStoreMC %s emitted no scenarios" % c["name"])
-            if mach_errors:
-                raise vlib.Undecided("harness / expectation problem: %s" % mach_errors[0])
-            cov["states"] += res.distinct
-            cov["transitions"] += res.generated
-            cov["scenarios"] += count[0]
-            cov["configs"].append(dict(name=c["name"], distinct=res.distinct, generated=res.generated, scenarios=count[0],
-                                       tlc_wall=round(res.wall, 1), bounds={k: v for k, v in c.items() if k != "name"}))
-
-        # ---- confirm failing scenarios once from scratch (full values), then report
-        for fid, lst in sorted(failing.items()):
-            for scn, path in lst[:2]:
-                got = []
-                pool.run_all([dict(path=path, schema=scn["schema"], steps=scn["steps"], full=True)], lambda qq, r: got.append(r), chunk=1)
-                viol, mach = judge(scn, got[0], path)
-                if mach or not viol:
-                    raise vlib.Undecided("a failing scenario did not fail again when repeated: %s" % json.dumps(scn)[:600])
-                vlib.report_violation(ctx, dict(kind="valstore-replay", path=path, scenario=scn, detail=[v[1] for v in viol],
-                                                observed=got[0], finding_ids=[fid]), signature=fid, finding_ids=[fid])
+        failing = run_configs(ctx, pool, MC[ctx.tier], cov, st)
+        confirm_failing(ctx, pool, failing)
         cov["failing_signatures"] = sorted(failing)
     finally:
         pool.close()
